@@ -3,4 +3,4 @@ Require Extraction.
 Require Import ExtrOcamlBasic.
 From LLB Require Import Base.Bytes Codec.Codec Codec.FileObs BSys.Sig.
 Extraction "extracted/Model_sig.ml" sig_tokens ext_sig_tokens sig_tokens_v0 node_sig_tokens node_sig_tokens_v0
-  symlink_sig_tokens plain_sig_tokens relevant.
+  symlink_sig_tokens plain_sig_tokens relevant sdef_sig_tokens symlink_relevant.
